@@ -93,8 +93,9 @@ func props() map[string]Prop {
 			ID: "C01", Level: "exploration",
 			Units: []Unit{
 				{Name: "seq", Pkg: "internal/upload", Harness: "internal_upload", Run: "^TestVerifUploadSeq$", Instrument: uploadInstr, Timeout: 30 * time.Minute},
+				{Name: "public", Pkg: "internal/upload", Harness: "internal_upload", Run: "^TestVerifC01Public$", Instrument: uploadInstr, Timeout: 30 * time.Minute},
 			},
-			Assume: []string{"the upload configuration is handed to the uploader directly (the download through the module proxy is not exercised)", "X is forced through the instrumented crypto/rand.Read call so that boundary values X == rate are reached"},
+			Assume: []string{"most histories hand the upload configuration to the uploader directly; a sample goes through the public upload.Run with a file-based module proxy", "X is forced through the instrumented crypto/rand.Read call so that boundary values X == rate are reached"},
 		},
 		{
 			ID: "C02", Level: "exploration",
